@@ -127,12 +127,15 @@ Inductive ev :=
 | Detect                    (* manager: a sentinel fired without announcement -> terminate_broken *)
 | CheckShut                 (* manager: is_shutting_down() -> flag_executor_shutting_down *)
 | MgrOp                     (* manager: the next operation of the list it is walking *)
-| ResizeTopUp.              (* _resize(): _adjust_process_count() from a user thread, whatever the flags say (finding H8) *)
+| ResizeTopUp.              (* _resize(): _adjust_process_count() from a user thread *)
 
 Fixpoint set_nth (l : list wst) (i : nat) (v : wst) : list wst :=
   match l, i with [], _ => [] | _ :: t, 0 => v :: t | h :: t, S i => h :: set_nth t i v end.
 Fixpoint del_nth (l : list wst) (i : nat) : list wst :=
   match l, i with [], _ => [] | _ :: t, 0 => t | h :: t, S i => h :: del_nth t i end.
+
+(* nobody can get a new future accepted any more *)
+Definition closed (p : pool) : bool := negb (user p) || shut p || gshut p.
 
 Definition in_loop (p : pool) : bool := match mgr p with MLoop => true | _ => false end.
 
@@ -190,13 +193,14 @@ Definition step (p : pool) (e : ev) : pool :=
       | MOps _ [] => set_mgr p MDone
       | _ => p
       end
-  | ResizeTopUp => if user p then top_up p else p
+  | ResizeTopUp =>
+      (* tops the pool up only while it is neither broken nor shut down when the source says so (generated fact; false on the pinned
+         source: finding H8).  Assumed, as for InterpreterExit: no thread resizes once the interpreter has started to shut down *)
+      if user p && (negb resize_tops_up_only_on_a_live_pool || (negb (closed p) && negb (broken p))) then top_up p else p
   end.
 
 Definition run (es : list ev) (p : pool) : pool := fold_left step es p.
 Definition no_resize (es : list ev) : bool := forallb (fun e => match e with ResizeTopUp => false | _ => true end) es.
 
-(* nobody can get a new future accepted any more *)
-Definition closed (p : pool) : bool := negb (user p) || shut p || gshut p.
 Definition is_ensure (o : sop) : bool := match o with SEnsureRunning => true | _ => false end.
 Definition ensure_due (p : pool) : bool := match sub p with Some r => existsb is_ensure r | None => false end.
